@@ -45,7 +45,7 @@ var (
 )
 
 func TestMain(m *testing.M) {
-	rec.Rule("cases = signed artefact (16 types; generated PE/MSI/JAR/PowerShell inputs or fixtures; drawn key and digest) x one mutation inside a region the harness computes to be protected from the format specification: payload bytes (PE image outside checksum/certificate-directory/certificate table, MSI stream sectors, ZIP member data, script text, Mach-O section bytes, CAB data, DMG data fork, XAR table of contents, RPM header/payload, DEB members, PGP-signed content), the PKCS#7 signed attributes / message digest / content digest / signature value / leaf certificate located by an independent DER walker, PGP signature packets, or a semantic edit (member replaced/deleted/added, signature grafted from another artefact, data appended after or inside the signature container); mutation = bit flip, byte overwrite, 2-8 byte scramble, truncation; a mutation that the independent reader shows to leave the protected content unchanged is discarded and counted; oracle = relic's verifier (digests and chain on) must return an error or not-signed; non-trivial = every counted case (the mutation changed protected content); distinct = (format, input, region label, mutation)")
+	rec.Rule("cases = signed artefact (16 types; generated PE/MSI/JAR/PowerShell inputs or fixtures; drawn key and digest) x one mutation inside a region the harness computes to be protected from the format specification: payload bytes (PE image outside checksum/certificate-directory/certificate table, MSI stream sectors, ZIP member data, script text, Mach-O section bytes, CAB data, DMG data fork, XAR table of contents, RPM header/payload, DEB members, PGP-signed content), the PKCS#7 signed attributes / message digest / content digest / signature value / leaf certificate located by an independent DER walker, PGP signature packets, or a semantic edit (member replaced/deleted/added, signature grafted from another artefact, data appended after or inside the signature container); mutation = bit flip, byte overwrite, 2-8 byte scramble, truncation; a mutation that the independent reader shows to leave the protected content unchanged is discarded and counted; oracle = relic's verifier (digests and chain on) must return an error or not-signed; DEB member insertion in front of control/data members; PE certificate table of another image next to the genuine entry; non-trivial = every counted case (the mutation changed protected content); distinct = (format, input, region label, mutation)")
 	rec.Assume("unlisted extra ZIP members are only claimed protected for APK (scheme v2 covers the whole file) and APPX (block map), following the JDK's JAR semantics")
 	var err error
 	workDir, err = os.MkdirTemp("", "c02-")
